@@ -54,6 +54,7 @@ type Contract struct {
 	Props    []string
 	Requires []*Clause
 	Ensures  []*Clause
+	Captures []*Clause // closure invariants over captured variables (checked at MakeClosure, assumed at entry, re-proved at exit)
 	Relies   []*Clause // data-structure invariants assumed at entry and NOT asserted at call sites (rely/guarantee; listed in evidence)
 	After    map[string][]*Clause // call site (callee.ordinal) -> facts assumed right after that call (separation facts the logic cannot express; every use is listed in evidence)
 	Proves   []*Clause // proved for the body but not exported to callers (internal facts that would clash with an assumed abstraction such as allocator freshness)
@@ -97,7 +98,7 @@ type ContractFile struct {
 }
 
 var clauseKeywords = map[string]bool{"func": true, "interface": true, "extern": true, "functype": true, "global": true, "ghost": true,
-	"props": true, "requires": true, "relies": true, "ensures": true, "proves": true, "postulate": true, "after": true, "modifies": true, "loop": true, "decreases": true, "inline": true,
+	"props": true, "requires": true, "relies": true, "captures": true, "ensures": true, "proves": true, "postulate": true, "after": true, "modifies": true, "loop": true, "decreases": true, "inline": true,
 	"trusted": true, "overflow": true, "nosafety": true, "lockexempt": true, "from:": true, "end": true}
 
 var tagRe = regexp.MustCompile(`^\[([A-Za-z0-9_, ]+)\]\s*`)
@@ -210,7 +211,7 @@ func parseContractFile(path string) (*ContractFile, error) {
 			switch kw {
 			case "props":
 				cur.Props = append(cur.Props, fields[1:]...)
-			case "requires", "ensures", "postulate", "relies", "proves":
+			case "requires", "ensures", "postulate", "relies", "proves", "captures":
 				tags, label, src := splitTagsLabel(rest)
 				e, err := parseExpr(src)
 				if err != nil {
@@ -219,6 +220,16 @@ func parseContractFile(path string) (*ContractFile, error) {
 				cl := &Clause{Kind: kw, Tags: tags, Label: label, Src: src, E: e, Line: rc.line}
 				if kw == "requires" {
 					cur.Requires = append(cur.Requires, cl)
+				} else if kw == "captures" {
+					// an invariant of a closure over the variables it captured: asserted in the enclosing
+					// function where the closure is made, assumed at the closure's entry, re-proved at its exit
+					cur.Captures = append(cur.Captures, cl)
+					keep := *cl
+					keep.Kind = "ensures"
+					if keep.Label != "" {
+						keep.Label = "keeps-" + keep.Label
+					}
+					cur.Ensures = append(cur.Ensures, &keep)
 				} else if kw == "relies" {
 					cur.Relies = append(cur.Relies, cl)
 				} else if kw == "proves" {
